@@ -8,9 +8,9 @@ BASELINE_OFF = "cd /repo && env -u OFFSCALE_CDD_PYTHON_VERIF /venv/bin/python -m
 NOTE = "Trusts CPython (ast, inspect, argparse, tokenize, audit hooks, sys.monitoring), icontract, jsonschema and the harness' own generators/comparators; deviations whose mechanism key is listed as open in known_findings.json are reported as KNOWN-FINDING, anything else is a VIOLATION; a run whose deciding monitor never evaluated exits 2 (inconclusive)."
 CHECKS = {
  "C01": ("runtime contract (icontract postcondition) on the real docstring emitter; re-parse oracle; class-matrix + seeded random interfaces",
-         "Held on every emitter call observed: type-kind x default-kind x position matrix plus seeded random interfaces x 3 styles x emit_default_doc x emit_types x word_wrap, each re-parsed with prose defaults kept and stripped. Exploration: says nothing about interface shapes outside the generated classes.", NOTE, "3 C01"),
+         "Held on every emitter call observed: type-kind x default-kind x position matrix plus seeded random interfaces x 3 styles x emit_default_doc x emit_types x word_wrap (plus indent_level 1..3 / separating tab read back through cleandoc, empty descriptions, wrapped descriptions), each re-parsed with prose defaults kept and stripped. Exploration: says nothing about interface shapes outside the generated classes.", NOTE, "3 C01"),
  "C02": ("runtime contracts on the four real emitters (class, pydantic, function, argparse): render, re-read text, matching parser, IR comparison; render-stability monitor",
-         "Held on every emission observed over the signature-legal matrix + random interfaces x 3 docstring styles x emit_default_doc x type_annotations x kw-only; only the documented normalisations are applied.", NOTE, "3 C02"),
+         "Held on every emission observed over the signature-legal matrix + random interfaces x 3 docstring styles x emit_default_doc x type_annotations x kw-only x function_type (static/self/cls/None); only the documented normalisations are applied.", NOTE, "3 C02"),
  "C03": ("history monitor over conversion sequences: IR observed after every hop of a complete prefix tree (all sequences of length <= 3 over 5 formats) plus sampled length 4-5",
          "Every node of the prefix tree equals the start, hence any two sequences commute, for every generated interface; exhaustive over sequences <= 3 per interface, sampled beyond.", NOTE, "3 C03"),
  "C04": ("execution oracle: emitted source compiled and exec'd; class attributes/__annotations__, inspect.signature and a really populated ArgumentParser (+parse_args) compared with the description",
@@ -40,11 +40,11 @@ CHECKS = {
  "C16": ("observed return values of the real OpenAPI emitter and of gen_routes -> routes file -> openapi_bulk, checked by a reference $ref resolver, path-parameter check, operation-set check and the model's own json-schema",
          "Held on every document observed (1..3 models, CRUD subsets, prefixes, app names, shared / separate routes files).", NOTE, "3 C16"),
  "C17": ("audit-hook monitor (sys.addaudithook) in fresh subprocesses, armed only during each real cdd call on adversarial inputs; opcode inspection of exec'd code objects, canary module, sentinel files; self-test with --input-eval",
-         "No violating audit event and no sentinel for any monitored call over adversarial docstrings, interfaces and modules; the monitor is proven live each run by the --input-eval self-test and by counting the allowed type-name probes it saw.", NOTE, "3 C17"),
+         "No violating audit event and no sentinel for any monitored call over adversarial docstrings, interfaces, modules and route docstrings (python-tagged YAML); the monitor is proven live each run by the --input-eval self-test and by counting the allowed type-name probes it saw.", NOTE, "3 C17"),
  "C19": ("process-boundary monitor of the real `python -m cdd gen` under file-system snapshots: compile, symbol/__all__ oracle, re-parse of each generated symbol, free-name import resolution, non-clobbering",
-         "Held on every invocation observed over the parse-kind x emit-kind matrix x templates x import inference x prepend x existing output; configurations this tree rejects are enumerated so that any other failure is a deviation.", NOTE, "3 C19"),
+         "Held on every invocation observed over the parse-kind x emit-kind matrix x templates x import inference x prepend x existing output x input mapping as file or directory of modules; configurations this tree rejects are enumerated so that any other failure is a deviation.", NOTE, "3 C19"),
  "C20": ("process-boundary monitor of the real `python -m cdd exmod` in a throw-away venv: audit-event wrapper (write-mode opens, mkdir, remove...) + file-system snapshot of venv, package, output and parents",
-         "Held on every invocation observed over generated package trees x emit kind x recursive x blacklist/whitelist x dry-run x output location.", NOTE, "3 C20"),
+         "Held on every invocation observed over generated package trees x emit kind x recursive x blacklist/whitelist x dry-run x output location (outside, inside the package, nested-absent, named like the target module, named after the exposed module) x --target-module-name.", NOTE, "3 C20"),
  "C18": ("import-history monitor: fresh interpreter per first module (audit hook records the import chain), ordered pairs by fork after the first import; public-name comparison between orders",
          "Exhaustive over first imports of all non-test modules; ordered pairs sampled symmetrically (quick, 50%) or exhaustive (thorough, all ordered pairs).", NOTE, "3 C18"),
 }
